@@ -220,6 +220,28 @@ def judge(nl, pal, res):
                     break
             if bad:
                 break
+    # the other way of deactivating: remove the other sources altogether (ideal voltage sources contracted, ideal current
+    # sources dropped) - every passive branch that survives carries the same single-source voltage and current
+    from CircuitCalculator.Network.NodalAnalysis.bias_point_analysis import nodal_analysis_bias_point_solver
+    for j in range(len(srcs)):
+        if (j,) not in sols:
+            continue
+        try:
+            part2 = trf.passive_network(net, keep=[elem[srcs[j][3]]])
+            sol2 = nodal_analysis_bias_point_solver(part2)
+            alive = {b.id for b in part2.branches}
+        except Exception as e:
+            bump(res["skipped"], "contracted_single_source_network:" + type(e).__name__)
+            continue
+        bump(res["hits"], "superposition_contracted")
+        for br in nl["branches"]:
+            if br[2] not in ("Z", "Y", "load") or br[3] not in alive:
+                continue
+            v2, i2 = complex(sol2.get_voltage(br[3])), complex(sol2.get_current(br[3]))
+            if abs(v2 - sols[(j,)][1][br[3]]) > 2 * tol_v or abs(i2 - sols[(j,)][2][br[3]]) > 2 * tol_i:
+                add_violation(res, "superposition_split", dict(case, keep=[srcs[j][3]], via="passive_network"), [sols[(j,)][1][br[3]], sols[(j,)][2][br[3]]], [v2, i2],
+                              "voltage/current of %s with only %s active differ between zeroing the other sources and removing them" % (br[3], srcs[j][3]))
+                break
     # the subset that keeps everything must reproduce the untouched network
     bump(res["hits"], "keep_all_is_identity")
     for idx, tol in ((0, tol_v), (1, tol_v), (2, tol_i)):
